@@ -249,3 +249,16 @@ func AccountToUTXO(from Acct, nonce uint64, amount *big.Int, dests []types.DestE
 	}
 	return tx, nil
 }
+
+// UpgradeTx builds a contract upgrade transaction signed by the registered upgrade signer (Spec.UpgradeSigner).
+func UpgradeTx(signer Acct, contract common.Address, nonce uint64, code []byte) types.Tx {
+	info := &types.ContractUpgradeMainInfo{FromAddr: signer.Addr, Recipient: contract, AccountNonce: nonce, Payload: code}
+	tx := types.UpgradeContractTx(info, nil)
+	if tx == nil {
+		panic("UpgradeContractTx")
+	}
+	if err := tx.Sign(types.GlobalSTDSigner, signer.Key); err != nil {
+		panic(err)
+	}
+	return tx
+}
